@@ -62,9 +62,13 @@ def run_one(chk, sseed, nrepos=1, directed=None):
             # the last update only withdraws packages: the final run transfers no pool file at all, and still has to clean
             nv = copy.deepcopy(versions[-1])
             removed = 0
+            # a new state gets a Last-Modified later than every earlier state (after a rollback the last version is an old one:
+            # "its date + 1 day" could coincide with the date of another state, which would make two different release files
+            # indistinguishable by size and date)
+            newest = max(cs.get("date", 1_000_000_000) for v in versions for r in v for cs in r["codenames"].values())
             for r in nv:
                 for cs in r["codenames"].values():
-                    cs["date"] = cs.get("date", 1_000_000_000) + 86400
+                    cs["date"] = newest + 86400
                     for cp in cs["components"].values():
                         for arch, pkgs in cp.get("binaries", {}).items():
                             if len(pkgs) > 1:
